@@ -34,13 +34,18 @@ def build(desc):
     rng = simgen.mk_rng(desc["seed"], desc["idx"], 10)
     d = dict(desc)
     d["overrides"] = {"script_params": {"n_orders": (3, 10), "p_same_trade": 0.35, "p_cancel": 0.4, "p_replace": 0.3, "p_update": 0.1, "p_second_op": 0.4, "p_any_step": 0.15}}
+    if desc["idx"] % 9 == 7:
+        # a market followed for more than a day (hours between updates): cool-downs are measured in elapsed seconds, days included
+        mp_ = dict(_sim.PROFILES[desc["profile"]]["market_params"])
+        mp_.update(spacing_ms=(1000, 60_000, 18_000_000, 40_000_000, 86_400_000 - 60_000, 86_400_000 + 90_000), n_pre=(6, 12), p_inplay=0.0, market_time_offsets=(400_000_000,))
+        d["overrides"]["market_params"] = mp_
     case, snaps = _sim.build(d)
     for s in case["strategies"]:
         s["max_trade_count"] = rng.choice((1, 2, 3, 1e6))
         s["max_live_trade_count"] = rng.choice((1, 1, 2, 3, 1e6))
         s["multi_order_trades"] = rng.random() < 0.5
-        rs = rng.choice((0.0, 0.0, 0.04, 1.0, 5.0, 60.0))
-        ps = rng.choice((0.0, 0.0, 0.04, 1.0, 5.0))
+        rs = rng.choice((0.0, 0.0, 0.04, 1.0, 5.0, 60.0)) if desc["idx"] % 9 != 7 else rng.choice((120.0, 300.0, 3600.0))
+        ps = rng.choice((0.0, 0.0, 0.04, 1.0, 5.0)) if desc["idx"] % 9 != 7 else rng.choice((0.0, 120.0, 300.0))
         for a in s["actions"]:
             if a["op"] == "place":
                 a["reset_seconds"] = rs
